@@ -100,7 +100,14 @@ func c07Scenarios(tier string) []e1lib.Scenario {
 		if c.K >= 4 && c.Stage == "fmap" {
 			b = 3
 		}
-		out = append(out, e1lib.Scenario{Name: stageName(c), Root: func() { stage.Scenario(c) }, Check: c07Check(c), Bound: b, Sample: c,
+		var done []string
+		if c.Stage == "map" || c.Stage == "fmap" {
+			done = []string{"got-eof"}
+			if c.ErrRd == "reader" {
+				done = append(done, "err-eof")
+			}
+		}
+		out = append(out, e1lib.Scenario{Name: stageName(c), Root: func() { stage.Scenario(c) }, Check: c07Check(c), Bound: b, Sample: c, RealDone: done,
 			Nontrivial: func(outcomes, execs, states int) bool { return c.Mask != 0 && execs > 1 }})
 	}
 	for _, st := range []string{"map", "fmap"} {
